@@ -72,6 +72,12 @@ def gen(rng, tier, index):
             spec if not isinstance(spec, list) else None, None) or list(spec)
         faults = [{'stage': 'u0', 'pos': p_, 'exc': rng.choice(kinds)}
                   for p_ in range(n) if rng.random() < 0.3]
+    elif rng.random() < 0.2:
+        # one example fails with an exception nobody catches: the bound holds up to
+        # and including the moment the failure is reported (no job is run again)
+        site = par['id'] if par['op'] == 'parmap' and rng.random() < 0.7 else 'u0'
+        faults = [{'stage': site, 'pos': rng.randrange(b, n),
+                   'exc': rng.choice(['value', 'key', 'index', 'filter', 'base'])}]
     # key iteration over a parallel map sends (key, example) pairs to the workers
     items = desc['source']['kind'] == 'dict' and stages[-1] is par and not par.get('catch') and \
         (par['op'] == 'parmap' or not pargen.is_pool(par)) and rng.random() < 0.5
